@@ -393,7 +393,11 @@ class Lab:
         orig_reload = Configuration.reload
 
         def reload(cfg):
-            ret = orig_reload(cfg)
+            try:
+                ret = orig_reload(cfg)
+            except BaseException as e:  # noqa
+                lab.event('config-reload', ok=False, error=f'reload() raised {type(e).__name__}: {e}'[-300:], raised=type(e).__name__)
+                raise
             lab.event('config-reload', ok=ret is True, error=str(cfg.error)[-300:])
             return ret
 
